@@ -344,7 +344,8 @@ def statement_checks(ctx, groups, res, found):
                     d = {'kernel': 'hkl_vec_from_Q_vec', 'residual': [float(c) for c in resid], 'bound': float(bound), 'kappa_inf': float(kap),
                          'Q': [float(c) for c in qq], 'hkl': [float(c) for c in hq], 'R': [float(fr(c)) for c in pick(ops['R'], k)],
                          'U': [float(fr(c)) for c in pick(ops['U'], 0)], 'B': [float(fr(c)) for c in pick(ops['B'], 0)]}
-                    ctx.violation('hkl:residual', f'2 pi R UB hkl - Q = {d["residual"]} exceeds 64 kappa u |Q| = {d["bound"]}', {'case': d})
+                    ctx.violation('hkl_vec_from_Q_vec:residual' + ('-kappa>=1e4' if kap >= 10000 else ''),
+                                  f'2 pi R UB hkl - Q = {d["residual"]} exceeds 64 kappa u |Q| = {d["bound"]} (kappa_inf = {float(kap):.3g})', {'case': d})
                     found.append(d)
                 if ok(r, 'hkl_el') and ok(r, 'rejoined'):
                     he = [r['hkl_el']['dict'][c]['values'][k] for c in ('h', 'k', 'l')]
@@ -425,7 +426,7 @@ HEADER = ('From Coq Require Import QArith ZArith String List.\n'
 def correspondence(ctx):
     rng = random.Random(ctx.seed)
     quick = ctx.tier == 'quick'
-    groups = gen_groups(rng, 60 if quick else 1000)
+    groups = gen_groups(rng, 60 if quick else 700)
     res = ctx.run_impl('c08_impl.py', {'groups': groups})
     terms, descs = [], []
     mutated = 0
@@ -480,8 +481,53 @@ def search(ctx, broken):
 
 
 def replay(ctx, obj):
+    """re-run the recorded input on the implementation and print observed vs required behaviour"""
     import json
-    print(json.dumps(obj, indent=1, default=str))
-    print('re-run: PYTHONPATH=/repo/src /venv/bin/python tools/harness/c08_impl.py with a group built from the operands above '
-          '(wavelength, incident_beam, scattered_beam, R, U, B as stored)')
+    rp = obj.get('replay', {})
+    case = rp.get('case') or rp
+    print(json.dumps({k: obj.get(k) for k in ('property', 'key', 'what')}, indent=1, default=str)[:3000])
+    if rp.get('group'):
+        g = rp['group']
+    elif 'scattered_beam' in case and isinstance(case.get('wavelength'), dict):
+        w = case['wavelength']
+        rot = lambda v: {'kind': 'quat' if len(v) == 4 else 'matrix', 'values': [[hexf(c) for c in v]], 'dim': None}  # noqa: E731
+        ident = [0.0, 0.0, 0.0, 1.0]
+        g = {'id': 0,
+             'wavelength': {'values': [w['value'] if w['dtype'].startswith('int') else hexf(w['value'])], 'unit': w['unit'].replace('\u00c5', 'angstrom'),
+                            'dtype': w['dtype'], 'dim': None},
+             'incident_beam': vop([case['incident_beam']], case['incident_unit'], None),
+             'scattered_beam': vop([case['scattered_beam']], case['scattered_unit'], 'p'),
+             'R': rot(case.get('R', ident)), 'U': rot(case.get('U', ident)),
+             'B': {'values': [hexf(c) for c in case.get('B', [1.0, 0, 0, 0, 1.0, 0, 0, 0, 1.0])], 'unit': '1/angstrom'}}
+        if 'Q' in case:
+            g['Q'] = vop([case['Q']], '1/angstrom', 'p')
+    elif all(k in case for k in ('Q', 'R', 'U', 'B')) or all(k in case for k in ('wavelength_si', 'incident_beam', 'scattered_beam')):
+        rot = lambda v: {'kind': 'quat' if len(v) == 4 else 'matrix', 'values': [[hexf(c) for c in v]], 'dim': None}  # noqa: E731
+        ident = [0.0, 0.0, 0.0, 1.0]
+        g = {'id': 0, 'wavelength': {'values': [hexf(case.get('wavelength_si', 1e-10))], 'unit': 'm', 'dtype': 'float64', 'dim': None},
+             'incident_beam': vop([case.get('incident_beam', [0.0, 0.0, 1.0])], 'm', None),
+             'scattered_beam': vop([case.get('scattered_beam', [1.0, 0.0, 0.0])], 'm', 'p'),
+             'R': rot(case.get('R', ident)), 'U': rot(case.get('U', ident)),
+             'B': {'values': [hexf(c) for c in case.get('B', [1.0, 0, 0, 0, 1.0, 0, 0, 0, 1.0])], 'unit': '1/angstrom'}}
+        if 'Q' in case:
+            g['Q'] = vop([[c / 1e10 for c in case['Q']]], '1/angstrom', 'p')      # recorded in 1/m
+    else:
+        print('this record carries no re-runnable operands (see the text above)')
+        return 0
+    res = ctx.run_impl('c08_impl.py', {'groups': [g]})
+    r = res['groups'][0]
+    for key in ('Qel', 'Qvec', 'two_theta', 'Qscalar', 'UB', 'hkl', 'hkl_el', 'rejoined'):
+        if key in r:
+            v = r[key]
+            print(key, '->', 'raises ' + v['error'] if 'error' in v else
+                  ({c: kcorr.fmt(x['values'][0]) for c, x in v['dict'].items()} if 'dict' in v else kcorr.fmt(v['values'][0])))
+    found = []
+
+    class P:   # print instead of recording
+        @staticmethod
+        def violation(key, what, replay_obj, found_input=True):
+            print('STILL VIOLATED:', key, '::', what[:400])
+    statement_checks(P, [g], res, found)
+    if not found:
+        print('the defining relations (Q = 2pi/lambda (e_i - e_f), |Q| = scalar Q, 2 pi R UB hkl = Q within 64 kappa u, UB = U*B, split/join exact) hold on this input')
     return 0
